@@ -97,12 +97,19 @@ def run(ctx):
         # sources that use the NAMES the targets use with another meaning: structures S / S0 / S1 with other members, globals named like the
         # targets' parameters and locals, functions f / h / k with other signatures -- nothing of an earlier compilation may leak into a later one
         return [{"src": COLLIDE[j], "opts": {"optimize": bool(j % 2)}} for j in range(len(COLLIDE))], False
-    NH = 6
+    # ... and sources compiled AFTER the target, before its result is listed: the target again and a program with break / continue in loops
+    LATER_LOOPS = ("export function lp(int n) -> int { int s = 0; while (s < n) { if (s == 3) { break; } s = s + 1; } "
+                   "int i = 0; while (i < n) { i = i + 1; if (i == 2) { continue; } s = s + i; } return s; }")
+    NH = 7
     runs = {}     # (target index) -> list of (seed, hist kind, result)
     for seed in seeds:
         jobs = []
         for i, (kind, m, text, opts) in enumerate(targets):
             for k in range(NH):
+                if k == 6:
+                    jobs.append({"history": [], "target": text, "opts": opts, "reuse_compiler": False,
+                                 "later": [{"src": text, "opts": opts}, {"src": LATER_LOOPS, "opts": {}}, {"src": LATER_LOOPS, "opts": {"optimize": True}}]})
+                    continue
                 h, reuse = history(k, i)
                 jobs.append({"history": h, "target": text, "opts": opts, "reuse_compiler": reuse})
         res = ctx.run_impl("c18_impl.py", jobs, nworkers=16, hashseed=seed)
@@ -135,7 +142,7 @@ def run(ctx):
     ctx.cov["programs"] = len(targets)
     ctx.cov["rule"] = ("targets: programs of the C01 generator at both optimisation settings, of the C04 vector generator, scalar straight-line modules compiled with the WebAssembly "
                        "option, and hand-written sources using the syntax the generators never produce (unnamed and __optional arguments, overloads differing in an unnamed argument, prototypes, "
-                       "annotated structures, octal / hexadecimal literals, an import line); each compiled in %d processes with different PYTHONHASHSEED values x 6 histories (fresh process; the same source compiled just before; four sources that use the targets' names for structures, globals and functions with another meaning compiled before; three other sources and a "
+                       "annotated structures, octal / hexadecimal literals, an import line); each compiled in %d processes with different PYTHONHASHSEED values x 7 histories (fresh process; the target compiled FIRST and its result read only after the same source and two loop programs with break/continue were compiled;  the same source compiled just before; four sources that use the targets' names for structures, globals and functions with another meaning compiled before; three other sources and a "
                        "syntax error before; eight other sources before; the same source with the other optimisation setting and a rejected program before), always with a fresh Compiler object as the property states (a Compiler object is not reusable: its visitors keep state). Compared: InstructionPrinter listing, import list, global "
                        "list, WebAssembly bytes (text equality across all %d combinations per target); for unoptimised core targets the structural IR is also compared inside Coq with the "
                        "lowering model's output for the source. Distinct = distinct (source, options)." % (len(seeds), NH * len(seeds)))
